@@ -247,6 +247,8 @@ pub enum Verdict {
     /// run produced no verdict (e.g. ill-conditioned); reason is counted
     Skip(&'static str),
     Violation(Violation),
+    /// the harness's own assumptions or oracles failed their self-check: exit 2, never a verdict
+    Harness(String),
 }
 
 /// What one run reports back to the driver.
@@ -263,6 +265,8 @@ pub struct Metrics {
     pub game_hash: u64,
     /// hash over everything observable about the run (decisions, events, result bits, verdict)
     pub log_hash: u64,
+    /// per-run records kept for population-level oracles: (cell key, value)
+    pub records: Vec<(String, f64)>,
 }
 
 impl Metrics {
@@ -286,4 +290,47 @@ pub struct RunOut {
 
 pub fn viol(class: impl Into<String>, sig: impl Into<String>, message: impl Into<String>) -> Verdict {
     Verdict::Violation(Violation { class: class.into(), sig: sig.into(), message: message.into() })
+}
+
+/// the `Prop` methods that are identical for every check whose case type is `LibCase`
+#[macro_export]
+macro_rules! lib_case_boilerplate {
+    () => {
+        fn case_to_json(&self, c: &LibCase) -> serde_json::Value {
+            c.to_json()
+        }
+        fn case_from_json(&self, v: &serde_json::Value) -> Result<LibCase, String> {
+            LibCase::from_json(v)
+        }
+        fn summary(&self, c: &LibCase) -> serde_json::Value {
+            c.summary()
+        }
+        fn with_replay(&self, c: &LibCase, traces: &[$crate::sched::Trace]) -> LibCase {
+            let mut n = c.clone();
+            if let Some(t) = traces.first() {
+                n.sched = $crate::sched::SchedSpec::replay(t.clone());
+            }
+            n
+        }
+        fn with_sched_seed(&self, c: &LibCase, seed: Option<u64>) -> LibCase {
+            let mut n = c.clone();
+            n.sched = match seed {
+                None => $crate::sched::SchedSpec::nopreempt(),
+                Some(s) => $crate::sched::SchedSpec::random(s),
+            };
+            n
+        }
+    };
+}
+
+/// finish a run: fold the verdict into the log hash
+pub fn finish(mut m: Metrics, mut h: crate::rng::Fnv, v: Verdict, traces: Vec<crate::sched::Trace>) -> RunOut {
+    match &v {
+        Verdict::Violation(x) => h.str(&x.class),
+        Verdict::Skip(r) => h.str(r),
+        Verdict::Harness(e) => h.str(e),
+        Verdict::Pass => h.str("pass"),
+    }
+    m.log_hash = h.finish();
+    RunOut { verdict: v, metrics: m, traces }
 }
